@@ -213,6 +213,8 @@ class FakeEio:
             return None
         if pkt.packet_type == packet.DISCONNECT:
             self.log.append(('send_disconnect', ns))
+        elif pkt.packet_type == packet.EVENT and pkt.id is not None:
+            self.log.append(('send_event', ns, pkt.id))
         else:
             self.log.append(('send_other', pkt.packet_type))
         return None
